@@ -542,9 +542,20 @@ def _fmt(files):
 # --------------------------------------------------------------------------------------------
 # Driver
 # --------------------------------------------------------------------------------------------
+def _drop_root():
+    """Pool workers never run atexit hooks: remove the scratch directory explicitly."""
+    global _ROOT
+    if _ROOT is not None and _ROOT[0] == os.getpid():
+        shutil.rmtree(_ROOT[1], ignore_errors=True)
+    _ROOT = None
+
+
 def _explore(item):
     cfg, bound = item
-    r = vloop.explore(make_run_one, (cfg,), bound=bound, procs=1, determinism_checks=1)
+    try:
+        r = vloop.explore(make_run_one, (cfg,), bound=bound, procs=1, determinism_checks=1)
+    finally:
+        _drop_root()
     pred = predict(cfg)
     multipart = any(n > cfg['part'] for p, n in cfg['files'].items() if p.startswith('S/'))
     return {
@@ -671,5 +682,8 @@ def check(tier, seed, procs):
 def replay(obj):
     cfg = obj['cfg']
     cfg['transfers'] = [[s, d, m] for s, d, m in cfg['transfers']]
-    x = vloop.run_prefix(make_run_one(cfg), tuple(obj['choices']))
+    try:
+        x = vloop.run_prefix(make_run_one(cfg), tuple(obj['choices']))
+    finally:
+        _drop_root()
     return x.violation is None, (f'{x.signature}: {x.violation}' if x.violation else 'no violation')
